@@ -67,7 +67,7 @@ var vmsaReserved = []vmsaField{{"reserved_1", 0xa0, 43}, {"reserved_2", 0xcc, 4}
 
 func main() {
 	r := mc.NewRun("C18")
-	r.Rule("E5: per structure, every field over a boundary menu (all pairs of fields x values), encodings compared with an independent layout table, decode(encode(v)) = v, every truncation and one-byte extension of each encoding fed to the decoder, each reserved byte set / documented-size zero fill / off-by-one size, out-of-range scalars; TCG log and SP800-155 event round trips including zero padding 0..8 and every truncation; non-trivial = distinct (structure, check) pairs that exercised an accepted encoding")
+	r.Rule("E5: per structure, every field over a boundary menu (all pairs of fields x values), encodings compared with an independent layout table, decode(encode(v)) = v, every truncation and one-byte extension of each encoding fed to the decoder, each reserved byte set / documented-size zero fill (also into a used buffer) / off-by-one size, out-of-range scalars; TCG log and SP800-155 event round trips including zero padding 0..8 and every truncation; encoder-produced logs of several 4 KiB blocks and of more than 64 KiB decoded from memory and through the file path at every alignment; decoding into used values; non-trivial = distinct (structure, check) pairs that exercised an accepted encoding")
 	guidCodec(r)
 	ovmfCodecs(r)
 	vmsaCodec(r)
